@@ -3,7 +3,19 @@ import FranzVerif.Model.C22Frame
 scripted peer over an in-bubble pipe. The monitor keeps, per connection, the requests in the order the peer read
 them (= the order the client wrote them, each with its correlation id) and the bytes the peer sent; running the
 frame parser (`Model.C22Frame`) over that stream against that FIFO says, for every request, whether a response can
-have been delivered to it. `check` returns the rule an event breaks. Core Lean only. -/
+have been delivered to it. `check` returns the rule an event breaks. Core Lean only.
+
+SASL scenarios add the vocabulary of KIP-368 re-authentication (pkg/kgo/broker.go: `handleReq`'s expiry arm, `park`,
+`failParked`, `takeParked`, `handleReauthDrain`): the peer reads a SASLHandshake request (`authBegin`), answers the
+SASLAuthenticate request successfully (`authEnd`), the client parks a request issued after the session expiry while
+responses are in flight (`park`). A parked request is either failed when the connection dies (then it must never reach
+the wire afterwards) or written exactly once, on a connection that completed an authentication after the request was
+parked (the replay of `handleReauthDrain`); no request is written while an authentication exchange is open, and a
+re-authentication begins only when every response of that connection has been received.
+-- models: pkg/kgo/broker.go:brokerCxn.park
+-- models: pkg/kgo/broker.go:brokerCxn.failParked
+-- models: pkg/kgo/broker.go:brokerCxn.takeParked
+-- models: pkg/kgo/broker.go:broker.handleReauthDrain -/
 namespace Model.Conn
 open Model.C22Frame
 
@@ -29,7 +41,7 @@ structure Frame where
 deriving DecidableEq, Repr
 
 inductive Ev where
-  | cfg (maxRead tmo : Nat) (strict racy huge : Bool)
+  | cfg (maxRead tmo : Nat) (strict racy huge sasl : Bool)
   | issue (i t : Nat)
   | hsReq (c corr : Nat)                        -- ApiVersions request of connection c
   | hsFrame (c : Nat) (sent : Bytes)            -- the peer's answer to it
@@ -41,6 +53,9 @@ inductive Ev where
   | never (i : Nat)                             -- did not return before the scenario gave up
   | cpu (ms : Nat)
   | quiesce
+  | authBegin (c n t : Nat)                     -- the peer read the SASLHandshake request of the n-th authentication on connection c
+  | authEnd (c n life t : Nat)                  -- the peer answers its SASLAuthenticate request successfully (session lifetime life ms)
+  | park (i t : Nat)                            -- the client parked request i (session expired, responses in flight)
 deriving DecidableEq, Repr
 
 structure St where
@@ -57,6 +72,11 @@ structure St where
   frames : List Frame := []                  -- oldest first
   closed : List Nat := []
   cpu : Nat := 0
+  sasl : Bool := false
+  authOpen : List Nat := []                  -- connections with an authentication exchange in progress
+  authed : List Nat := []                    -- connections that completed an authentication
+  parked : List Nat := []                    -- parked requests, newest first
+  ready : List (Nat × Nat) := []             -- (i, c): an authentication completed on connection c after request i was last parked
 deriving Repr
 
 def fifoOf (s : St) (c : Nat) : List Waiter := s.waiters.filter (·.c == c)
@@ -91,6 +111,10 @@ def expectOf (s : St) (i : Nat) : Expect :=
   | none => .unwritten
   | some w => lookup i (simulate s.maxRead (closedOf s w.c) (fifoOf s w.c) (streamOf s w.c))
 
+def Expect.isDeliver : Expect → Bool
+  | .deliver _ => true
+  | _ => false
+
 def clsOf : Res → Cls
   | .negSize => .negsize | .overSize => .oversize | .eof => .eof | .short => .short | .mismatch => .mismatch
   | _ => .other
@@ -124,6 +148,10 @@ def check (s : St) : Ev → Option String
     else if s.waiters.any (·.id == w.id) then some "C22.request-written-twice"
     else if (fifoOf s w.c).any (fun x => x.corr ≥ w.corr) then some "C22.correlation-id-not-increasing"
     else if !hsOk s w.c then some "C22.request-after-failed-handshake"
+    else if hasOut s w.id && outTime s w.id < w.tw then some "C22.failed-request-written-after-disconnect"
+    else if s.authOpen.contains w.c then some "C22.request-written-during-authentication"
+    else if s.sasl && !s.authed.contains w.c then some "C22.request-written-before-authentication"
+    else if s.parked.contains w.id && !s.ready.contains (w.id, w.c) then some "C22.parked-request-written-without-reauthentication"
     else none
   | .frame .. => none
   | .peerClose _ => none
@@ -147,6 +175,7 @@ def check (s : St) : Ev → Option String
   | .err i cls _ =>
     if !s.issued.any (·.1 == i) then some "C22.outcome-of-unknown-request"
     else if hasOut s i then some "C22.second-outcome"
+    else if s.strict && s.sasl then some "C22.request-failed-without-fault"
     else match expectOf s i with
       | .deliver _ => if s.strict then some "C22.valid-response-not-delivered" else none
       | .fail r =>
@@ -162,9 +191,18 @@ def check (s : St) : Ev → Option String
     else if s.waiters.any (fun w => hasOut s w.id && outTime s w.id > deadlineOf s w + 5) then some "C22.waited-beyond-timeout"
     else if s.cpu > 1000 then some (if s.huge then "C22.tag-count-unbounded-loop" else "C22.cpu-burn")
     else none
+  | .authBegin c _ _ =>
+    -- a RE-authentication reads its responses on the request goroutine: every response of the connection must be in
+    if s.authed.contains c && (fifoOf s c).any (fun w => !hasOut s w.id && !(expectOf s w.id).isDeliver)
+    then some "C22.reauthentication-with-response-in-flight" else none
+  | .authEnd .. => none
+  | .park i _ =>
+    if !s.issued.any (·.1 == i) then some "C22.harness-park-of-unknown-request"
+    else if s.waiters.any (·.id == i) then some "C22.written-request-parked"
+    else none
 
 def apply (s : St) : Ev → St
-  | .cfg maxRead tmo strict racy huge => { s with maxRead := maxRead, tmo := tmo, strict := strict, racy := racy, huge := huge }
+  | .cfg maxRead tmo strict racy huge sasl => { s with maxRead := maxRead, tmo := tmo, strict := strict, racy := racy, huge := huge, sasl := sasl }
   | .issue i t => { s with issued := (i, t) :: s.issued }
   | .hsReq c corr => { s with hsReqs := s.hsReqs ++ [(c, corr)] }
   | .hsFrame c sent => { s with hsSent := s.hsSent ++ [(c, sent)] }
@@ -176,6 +214,9 @@ def apply (s : St) : Ev → St
   | .never _ => s
   | .cpu ms => { s with cpu := ms }
   | .quiesce => s
+  | .authBegin c _ _ => { s with authOpen := c :: s.authOpen }
+  | .authEnd c _ _ _ => { s with authOpen := s.authOpen.filter (· != c), authed := c :: s.authed, ready := s.parked.map (fun i => (i, c)) ++ s.ready }
+  | .park i _ => { s with parked := i :: s.parked, ready := s.ready.filter (·.1 != i) }
 
 def step (s : St) (e : Ev) : Option St :=
   match check s e with
